@@ -548,7 +548,7 @@ def all_names(maxlen=3):
 
 
 def gen_case(rng, mode=None):
-    mode = mode or rng.weighted([("find", 6), ("grammar", 3), ("reg", 1)])
+    mode = mode or rng.weighted([("find", 15), ("grammar", 4), ("reg", 1)])
     root = gen_heap(rng)
     flags = rng.weighted([("", 6), ("p", 4)])
     split = rng.weighted([(".", 6), ("/", 2), ("::", 2)])
@@ -785,9 +785,17 @@ def real_heap(model, mm):
 class Prop(Check):
     ID = "C11"
     LEAN_MODULE = "TextxVerif.Props.C11"
-    THEOREMS = []
+    THEOREMS = [
+        "Rrel.C11_sound",
+        "Rrel.C11_complete",
+        "Rrel.C11_resolves_partial",
+        "Rrel.C11_precedence",
+        "Rrel.C11_path",
+        "Rrel.C11_fuel_stable",
+        "Rrel.C11_split",
+    ]
     DRIVER = "Drivers/Rrel.lean"
-    QUICK_CASES = 900
+    QUICK_CASES = 600
     THOROUGH_CASES = 30000
     RULE = ("generated RREL expressions (navigation, '~', fixed-name '~', '.', '..', '^', parent(T), '*', brackets, ',', "
             "with and without '+p:') x generated models (<= 15 nested named/unnamed objects of 3 classes, name collisions, "
@@ -812,7 +820,11 @@ class Prop(Check):
         if "tree" not in obs:
             return None
         req = {"op": "find", "unres": [], "extra": [], "top": obs["tree"]["top"], "o": case["from"],
-               "ns": self.names(case), "cls": case.get("cls"), "fuel": self.FUEL}
+               "cls": case.get("cls"), "fuel": self.FUEL}
+        if case.get("as_list") is not None:
+            req["ns"] = list(case["as_list"])
+        else:  # the model splits the reference text itself
+            req["text"], req["sep"] = case["name"], case.get("split", ".")
         req.update(model_heap(case["heap"]))
         return req
 
